@@ -5,3 +5,4 @@ pub mod ctx;
 pub mod dec;
 pub mod enc;
 pub mod proc;
+pub mod hist;
